@@ -71,4 +71,17 @@ PROPS = {
             {"name": "stress", "pkg": "c02", "run": "^TestC02Stress$", "race": True, "shards": {"quick": 6, "thorough": 16}, "timeout": {"quick": 400, "thorough": 3000}},
         ],
     },
+    "C04": {
+        "level": "exploration",
+        "level_text": "Sequential part: every ordering of eligible / filter-rejected / pre-cancelled / deadline-expired / cancelled-by-an-earlier-handler publishes up to length 4 (quick) or 5 (thorough) x sync/async x filter/none x plain/context-aware was run in lockstep with the registry model, HandlerCount and HasHandlers compared after every publish - enumerated completely. Concurrent part: K rounds of 2-16 publishers against 1-4 Once handlers (phase of only non-consuming publishes, then eligible ones released by a barrier with noise at filter/body, GOMAXPROCS 1/2/4/16, -race): zero calls and still counted after phase 1, exactly one call each and no longer counted after phase 2, plus the interval oracle on the recorded history.",
+        "level_note": "A context cancelled concurrently with the dispatch of an async Once handler is ambiguous in the statement and only generated for the at-most-once clause. The window between the claim and the start of an async goroutine contains no user code and is reached only by stress.",
+        "technique": "runtime monitoring: lockstep reference model over an exhaustively enumerated sequence space + invocation counters and interval checker under concurrent stress with the race detector",
+        "design_ref": "DESIGN.md section 5 C04",
+        "rule": "sequences: all words over {E,R,P,D,H} up to the tier's length x 8 handler variants; concurrent: PRNG (publishers, handlers, options); distinct = the word+variant, or (publishers, handlers, max publishes overlapping in logical time, GOMAXPROCS); non-trivial = a non-consuming publish precedes the first eligible one (sequences) / >=2 publishes overlapped on a Once registration (concurrent)",
+        "assumptions": ENGINE_ASSUME,
+        "parts": [
+            {"name": "sequences", "pkg": "c04", "run": "^TestC04Sequences$", "shards": {"quick": 2, "thorough": 8}, "timeout": {"quick": 300, "thorough": 1500}},
+            {"name": "concurrent", "pkg": "c04", "run": "^TestC04Concurrent$", "race": True, "shards": {"quick": 6, "thorough": 16}, "timeout": {"quick": 400, "thorough": 3000}},
+        ],
+    },
 }
